@@ -61,7 +61,15 @@ LEVEL_TEXT = (
     "builder's urlencode writes a key with an empty value as 'k='), strict_parsing false, separator '&', no field "
     "limit, UTF-8 - whether the options are written as keywords, positionally, through a spread dict, a helper or "
     "functools.partial - and gives the list parse_qsl returns, every pair in order, to the multi-dict class. "
-    "Helper functions the judged functions call are looked into (one level of extraction, arguments bound). Values are "
+    "Helper functions the judged functions call are looked into (one level of extraction, arguments bound); a callable "
+    "that is functools.partial(F, <constants / module-level names>) - bound at module level, to a local, or handed to a "
+    "helper as its converter - is F called with those arguments. The R15.7 / R15.8 evaluator also follows match "
+    "statements over plain values (literals, `|`, captures, sequences, guards) and try / except around modelled "
+    "operations that raise builtin exceptions (rindex -> ValueError, d[k] -> KeyError, ...). In R15.6 a peeled segment "
+    "with constant text around it (`'/' + last`) is that segment, and a piece of PATH_INFO cut at a computed position "
+    "that is not understood leaves the composition of that store undecided (analysis error, not a violation); the "
+    "remainder may also be computed once as what stands behind the matched prefix (`path[len(prefix):]`, the prefix a "
+    "copy of that untouched environ value or what right-peeling left of it on every reaching definition). Values are "
     "followed through the containers that hold them: list / tuple / dict displays, what is put into them in place "
     "(append / extend / insert / item and slice stores / update / setdefault), str.join, %-formatting and str.format, "
     "filter / map / chain / sorted / reversed, generator functions (the yielded values), rows of a literal table a loop "
@@ -1707,6 +1715,12 @@ def _r15_6(ctx: Ctx) -> None:
         # untouched pieces: no operation at all is needed; an encode/decode round trip that nets to T is accepted by the class
         ctx.ob("R15.6", f"dispatcher writes back tunnelled {k}", ok, fact, fi, node, f"dispatcher writes {k}")
         env = [l.key for l in lv if l.kind == "environ"]
+        blind = [l for l in lv if l.kind == "environ" and l.key == "PATH_INFO" and "cut?" in l.tags and not ({"tail", "head"} & set(l.tags))]
+        if blind:
+            # not understood is not violated: the composition of this store stays undecided (the other obligations
+            # of the store - transport class, the other key - are still judged and reported)
+            ctx.error(f"{fi.fq}: the new {k} contains a piece of PATH_INFO cut at a computed position (`{norm(blind[0].node)[:50]}` ... line {getattr(node, 'lineno', '?')}): whether it is the matched prefix or the remainder is not understood")
+            continue
         if k == "SCRIPT_NAME":
             first_sn = env.index("SCRIPT_NAME") if "SCRIPT_NAME" in env else None
             first_pi = env.index("PATH_INFO") if "PATH_INFO" in env else None
@@ -1755,6 +1769,12 @@ def _r15_6(ctx: Ctx) -> None:
     nacc = 0
     for sc in scopes:
         nacc += _accumulations(ctx, fi, sc)
+        # the remainder computed once as what stands behind the matched prefix (`path[len(script):]`) instead of
+        # being accumulated segment by segment
+        for n in walk_no_nested(sc.fn):
+            if isinstance(n, ast.Subscript) and isinstance(n.ctx, ast.Load) and flow.complement_of_head(n, sc if sc.fn is not flow.root.fn else flow.root):
+                nacc += 1
+                ctx.ob("R15.6", "remainder keeps request order", True, f"`{norm(n)}`: what stands behind the right-peeled prefix `{norm(n.slice.lower.args[0])}` in the old value", fi, n, "dispatcher remainder order")  # type: ignore[attr-defined]
     ctx.floor("R15.6", "remainder accumulation statements", nacc, 1)
 
 
@@ -1853,6 +1873,19 @@ def _peeled_end(sc: Scope, p: ast.AST, depth: int = 0) -> str | None:
             return "left"
         return None
 
+    if isinstance(p, (ast.BinOp, ast.JoinedStr)) and depth < 3:
+        # `"/" + last` / f"/{last}": the piece with constant text (the separator it was split at) around it
+        def flat(e: ast.AST) -> list[ast.AST]:
+            if isinstance(e, ast.BinOp) and isinstance(e.op, ast.Add):
+                return flat(e.left) + flat(e.right)
+            if isinstance(e, ast.JoinedStr):
+                return [v.value if isinstance(v, ast.FormattedValue) else v for v in e.values]
+            return [e]
+
+        if isinstance(p, ast.BinOp) and not isinstance(p.op, ast.Add):
+            return None
+        moving = [x for x in flat(p) if not isinstance(x, ast.Constant)]
+        return _peeled_end(sc, moving[0], depth + 1) if len(moving) == 1 else None
     if isinstance(p, ast.Subscript) and isinstance(p.slice, ast.Slice):
         return {"tail": "right"}.get(slice_peel(sc, p) or "")
     if isinstance(p, ast.Subscript) and isinstance(p.slice, ast.Constant) and isinstance(p.slice.value, int):
